@@ -457,7 +457,6 @@ class Frame(Widget, WidgetContainerMixin, typing.Generic[BodyWidget, HeaderWidge
         (htrim, ftrim), (hrows, frows) = self.frame_top_bottom((maxcol, maxrow), focus)
 
         combinelist = []
-        depends_on = []
 
         head = None
         if htrim and htrim < hrows:
@@ -468,12 +467,10 @@ class Frame(Widget, WidgetContainerMixin, typing.Generic[BodyWidget, HeaderWidge
                 raise RuntimeError("rows, render mismatch")
         if head:
             combinelist.append((head, "header", self.focus_part == "header"))
-            depends_on.append(self.header)
 
         if ftrim + htrim < maxrow:
             body = self.body.render((maxcol, maxrow - ftrim - htrim), focus and self.focus_part == "body")
             combinelist.append((body, "body", self.focus_part == "body"))
-            depends_on.append(self.body)
 
         foot = None
         if ftrim and ftrim < frows:
@@ -484,9 +481,12 @@ class Frame(Widget, WidgetContainerMixin, typing.Generic[BodyWidget, HeaderWidge
                 raise RuntimeError("rows, render mismatch")
         if foot:
             combinelist.append((foot, "footer", self.focus_part == "footer"))
-            depends_on.append(self.footer)
 
-        return CanvasCombine(combinelist)
+        canvas = CanvasCombine(combinelist)
+        # a part that is trimmed away (or rendered through a temporary Filler) is not a child of the canvas,
+        # but this rendering still depends on it
+        canvas.set_depends([w for w in (self.header, self.body, self.footer) if w is not None])
+        return canvas
 
     def keypress(
         self,
